@@ -834,7 +834,7 @@ func (ser *Epoch) FindOffsetAndSizeFromCid(ctx context.Context, cid cid.Cid) (os
 	}()
 
 	// try from cache
-	if osi, err, has := ser.GetCache().GetCidToOffsetAndSize(cid); err != nil {
+	if osi, err, has := ser.GetCache().GetCidToOffsetAndSize(ser.Epoch(), cid); err != nil {
 		return nil, err
 	} else if has {
 		return osi, nil
@@ -859,7 +859,7 @@ func (ser *Epoch) FindOffsetAndSizeFromCid(ctx context.Context, cid cid.Cid) (os
 			Offset: offset,
 			Size:   size,
 		}
-		ser.GetCache().PutCidToOffsetAndSize(cid, found)
+		ser.GetCache().PutCidToOffsetAndSize(ser.Epoch(), cid, found)
 		return found, nil
 	}
 
@@ -867,7 +867,7 @@ func (ser *Epoch) FindOffsetAndSizeFromCid(ctx context.Context, cid cid.Cid) (os
 	if err != nil {
 		return nil, err
 	}
-	ser.GetCache().PutCidToOffsetAndSize(cid, found)
+	ser.GetCache().PutCidToOffsetAndSize(ser.Epoch(), cid, found)
 	return found, nil
 }
 
